@@ -12,7 +12,7 @@ R12.3 (provenance) the notification substream codec is UnsignedVarint(Some(max_n
 R12.4 (K4/K9-lite) outbound: in Connection::poll_next a notification taken from next_notification / the receivers is, on every path,
       handed to start_send, parked back into next_notification, or the function returns CloseConnection; at most one is parked and
       the parked one is sent before any newer one (take() precedes the receivers)
-R12.5 (K11, thorough) Connection::poll_next returns Pending only behind an inner Pending
+R12.5 (K11) Connection::poll_next returns Pending only behind an inner Pending
 Not decided: ordering/exactly-once over arbitrarily long sequences under back-pressure (histories).
 """
 import re
@@ -318,8 +318,7 @@ def run(ctx):
             r12_1(ctx, fx)
             r12_2(ctx, fx)
             r12_4(ctx, fx)
-            if ctx.tier == "thorough":
-                r12_5(ctx, fx)
+            r12_5(ctx, fx)
         r12_3(ctx, fx)
     ctx.assume("tokio mpsc channels are FIFO per sender and try_send never waits; PollSender::send_item panics without a reserved slot")
     ctx.assume("C04 R04.1: a frame larger than the codec maximum is an error before allocation")
